@@ -66,11 +66,45 @@ mod verif_kani {
     }
 
     #[kani::proof]
+    #[kani::stub(Hasher::update, stub_update)]
+    #[kani::stub(std::sync::mpsc::channel, stub_channel)]
+    #[kani::stub(std::thread::Builder::spawn, stub_spawn)]
+    #[kani::stub(sp::catch_unwind, stub_catch)]
+    #[kani::stub(std::sync::mpsc::Sender::send, stub_send)]
+    #[kani::stub(std::sync::mpsc::Receiver::recv, stub_recv)]
+    #[kani::stub(Hasher::finalize, stub_finalize)]
+    #[kani::unwind(4)]
+    fn inclusion_one_range() {
+        let data: [u8; 3] = kani::any();
+        let len: usize = kani::any();
+        kani::assume(len >= 1 && len <= 3);
+        let mut cur = Cursor::new(&data[..len]);
+        let s1: u64 = kani::any();
+        let l1: u64 = kani::any();
+        let hr = vec![HashRange::new(s1, l1)];
+        let res = hash_stream_by_alg_with_progress_impl("sha256", &mut cur, Some(hr), false, &mut |_, _| Ok(()), NonZeroUsize::new(1 << 20).unwrap());
+        let past_end = s1 as u128 + l1 as u128 > len as u128;
+        if past_end { assert!(res.is_err()); }
+        if res.is_ok() {
+            let mut k = 0usize; let mut i = 0usize;
+            while i < len {
+                let inc = l1 > 0 && (i as u64) >= s1 && ((i as u64) - s1) < l1;
+                if inc { unsafe { assert!(k < LOG_LEN); assert!(LOG[k] == data[i]); } k += 1; }
+                i += 1;
+            }
+            unsafe { assert!(k == LOG_LEN); }
+        }
+        kani::cover!(res.is_ok() && l1 > 0);
+        kani::cover!(res.is_err());
+        std::mem::forget(res);
+    }
+
+    #[kani::proof]
     #[kani::unwind(8)]
     fn b_sha_new() { let _h = Hasher::SHA256(Sha256::new()); }
 
     #[kani::proof]
-    #[kani::unwind(8)]
+    #[kani::unwind(3)]
     fn b_rangeset() {
         let a: u64 = kani::any(); let b: u64 = kani::any();
         kani::assume(a <= b && b < 10);
